@@ -179,6 +179,13 @@ func (c *updater) setAuthExternal(config ConfigValueGetter, auth *hatypes.AuthEx
 			c.logger.Warn("skipping auth-url on %s: a globally configured auth-url is missing the namespace", url.Source.String())
 			return
 		}
+		if url.Source != nil && namespace != url.Source.Namespace && !c.options.DynamicConfig.CrossNamespaceServices {
+			// the backend might exist because an ingress of that namespace created
+			// it, this however does not allow other namespaces to reference it
+			c.logger.Warn("skipping auth-url on %s: service '%s/%s' is in another namespace and cross-namespace-services is not allowed",
+				url.Source.String(), namespace, name)
+			return
+		}
 		backend = c.haproxy.Backends().FindBackend(namespace, name, urlPort)
 		if backend == nil {
 			// warn was already logged in the ingress if a service couldn't be found,
@@ -280,6 +287,14 @@ func (c *updater) buildBackendAuthHTTP(d *backData) {
 		secretName := authSecret.Value
 		if !strings.Contains(secretName, "/") {
 			secretName = authSecret.Source.Namespace + "/" + secretName
+		}
+		if secretNamespace := strings.Split(secretName, "/")[0]; secretNamespace != authSecret.Source.Namespace &&
+			!c.options.DynamicConfig.CrossNamespaceSecretPasswd {
+			// the userlist might exist because a resource of that namespace created
+			// it, this however does not allow other namespaces to reference it
+			c.logger.Error("error reading basic authentication on %v: secret '%s' is in another namespace and cross-namespace-secrets-passwd is not allowed",
+				authSecret.Source, secretName)
+			continue
 		}
 		listName := strings.Replace(secretName, "/", "_", 1)
 		userlist := c.haproxy.Userlists().Find(listName)
